@@ -137,7 +137,7 @@ for _pid, _spec in PROPS.items():
     _txs = set(s for (k, s) in _spec.get('ops', []) if k == 'tx')
     for _scn, (_ts, _arg) in SCENARIO_TXS.items():
         if _scn not in _have and _txs & set(_ts):
-            _spec['scenarios'].append((_scn, 400, 4000, _arg))
+            _spec['scenarios'].append((_scn, 1200, 6000, _arg))
     if 'bulk' not in _have and any(k in ('genesis-export', 'genesis-init') or (k == 'query' and (s or '').endswith('s') and s != 'Roles') for (k, s) in _spec.get('ops', [])):
         _spec['scenarios'].append(('bulk', 300, 3000, ''))
 
